@@ -272,7 +272,9 @@ def keys(h):
     rootu, fips = frames.unit_universe("units")
     h.ctx.assume(z3.And(*rootu.facts()))
     cur = frames.base_frame(rootu, z3.Function("inFeed", z3.IntSort(), z3.BoolSort())(rootu.u), {"geographic_unit_fips": fips(rootu.u)}, "geographic_unit_fips")
-    cd = h.obj(CDH, current_data=cur, geographic_unit_type=c["geographic_unit_type"])
+    # the rest of the handler's state is arbitrary (any joined frame, any baseline frame): what is written may not depend on it
+    anyf = lambda nm: frames.base_frame(rootu, z3.Function(nm, z3.IntSort(), z3.BoolSort())(rootu.u), {"geographic_unit_fips": fips(rootu.u)}, "geographic_unit_fips")  # noqa: E731
+    cd = h.obj(CDH, current_data=cur, data=anyf("inJoined"), preprocessed_data=anyf("inBaseline"), geographic_unit_type=c["geographic_unit_type"])
     clo = h.method(cd, "write_data")
     clo.env.overrides.update({"s3": S3Mod(), "convert_df_to_csv": lambda df: "csv", "S3_FILE_PATH": root, "TARGET_BUCKET": "b"})
     clo(c["election_id"], c["office"])
